@@ -106,13 +106,40 @@ theorem publish_atomic (g : G) (p pi : Nat) (s : Sub) (hw : Wf g)
   · rw [h]
   · rw [h] at he; simp [Res.isErr] at he
 
+/-- the group rule checked by `Subscription.__new__` is the precondition `wf_publish` needs -/
+theorem trainOK_of_subscription (g : G) (s : Sub) (hw : Wf g) (hs : isWorker g s.node = true)
+    (h : subscription g s = none) : TrainOK g s := by
+  obtain ⟨_, _, _, _, i6, i7, _⟩ := hw
+  have c5 := (subscription_none g s h).2.2.2.2
+  intro ha e he hea hgid
+  apply Classical.byContradiction
+  intro hne
+  have hany := c5 ha
+  obtain ⟨k, hk⟩ := gid_of_worker g s.node hs
+  have hmem : e.sub.node ∈ group g s.node := by
+    unfold group
+    simp only [hk, List.mem_filter, List.mem_range, decide_eq_true_eq]
+    exact ⟨isWorker_lt _ _ (i7 e he).2, by rw [hgid, hk]⟩
+  have htr : trained g e.sub.node = true := trained_true g e.sub (i6.2 e he) hea
+  have := List.any_eq_false.mp hany e.sub.node hmem
+  simp [htr, hne] at this
+
 theorem publish_wf (g : G) (p pi : Nat) (s : Sub) (hw : Wf g)
-    (hs : isWorker g s.node = true) (hp : p < g.nodes.length) (ht : TrainOK g s) :
+    (hs : isWorker g s.node = true) (hp : p < g.nodes.length) :
     Wf (publish g p pi s).1 := by
-  rcases publish_cases g p pi s hw hs hp with ⟨e, h⟩ | ⟨L, h, _, _, _, f2, f3, f4, f5, _⟩
-  · rw [h]; exact hw
-  · rw [h]
-    exact wf_publish g s L hw f2 f3 hs ht ⟨_, f4⟩ f5
+  cases hsub : subscription g s with
+  | some e =>
+    have hsf := isFuture_of_isWorker g _ hs
+    have : publish g p pi s = (g, .err e) := by
+      unfold publish
+      simp only [hsf, Bool.false_eq_true, false_and, ↓reduceIte, hsub]
+    rw [this]; exact hw
+  | none =>
+    have ht := trainOK_of_subscription g s hw hs hsub
+    rcases publish_cases g p pi s hw hs hp with ⟨e, h⟩ | ⟨L, h, _, _, _, f2, f3, f4, f5, _⟩
+    · rw [h]; exact hw
+    · rw [h]
+      exact wf_publish g s L hw f2 f3 hs ht ⟨_, f4⟩ f5
 
 theorem mem_out (g : G) (f i : Nat) (s : Sub) (h : s ∈ out g f i) : (⟨f, i, s⟩ : Edge) ∈ g.edges := by
   unfold out at h
@@ -275,7 +302,7 @@ theorem publish_self_future (g : G) (p pi : Nat) (s : Sub) (hf : isFuture g s.no
   cases hsub : subscription g s with
   | some e => exact ⟨e, rfl⟩
   | none =>
-    have := (subscription_none g s hsub).2.2.2
+    have := (subscription_none g s hsub).2.2.2.1
     rw [hf] at this; cases this
 
 /-- `Worker.train` on a well-formed state: an error with the state untouched (also when the label publish
